@@ -353,7 +353,15 @@ func (n *CNode) connectedTo(p *CNode) bool {
 // WaitConverged waits until every running node's position map equals the
 // primary's (restricted to the node's filter). It returns an error describing
 // the laggard on timeout.
-func (cl *Cluster) WaitConverged(d time.Duration) error {
+func (cl *Cluster) WaitConverged(d time.Duration) error { return cl.waitConverged(d, false) }
+
+// WaitConvergedConnected additionally requires every running node to be streaming from
+// the current primary. A node whose old primary was demoted can still apply a frame
+// that primary had sent it before it connects to the new one: equal positions alone
+// are not yet a quiet cluster right after a change of primary.
+func (cl *Cluster) WaitConvergedConnected(d time.Duration) error { return cl.waitConverged(d, true) }
+
+func (cl *Cluster) waitConverged(d time.Duration, connected bool) error {
 	deadline := time.Now().Add(d)
 	for {
 		if _, err := cl.Supervise(); err != nil {
@@ -368,6 +376,9 @@ func (cl *Cluster) WaitConverged(d time.Duration) error {
 			for _, n := range cl.Nodes {
 				if !n.Up || n == p {
 					continue
+				}
+				if connected && !n.connectedTo(p) {
+					lag = fmt.Sprintf("node %s is not streaming from primary %s", n.Name, p.Name)
 				}
 				got := n.Store.PosMap()
 				for name, pos := range want {
